@@ -53,6 +53,9 @@ CHECKS = {
  'C05': dict(cat='model_checking', engine='cbmc+irsym', technique='CBMC on the real table/loop functions (loop-shift selection with unwinding assertion, variable declaration limits at enumerated fill levels, compile result classification with a stub back end) and symbolic execution (irsym, LLVM IR) of the real front half of the compiler on programs at and beyond the load/store expansion limits',
              text='Termination and value of the loop-shift selection for every register/variable size; no table is written past its capacity and overruns are refused with an error; every result code is classified and fatal/non-fatal/successful results leave the stated state.',
              note='whole x86/NEON/MIPS/Altivec back ends are outside (the C01 family is compiled concretely with a watchdog); irsym detects out-of-bounds per object, member-to-member overflow through post-state invariants.', ref='DESIGN.md#c05'),
+ 'C15': dict(cat='model_checking', engine='cbmc', technique='CBMC two-program equivalence harnesses on the real directive handlers vs the construction API (symbolic sizes/alignments), symbolic-digit literal harnesses, opcode-line operand-order harnesses, relational formatting harnesses on tokenizer and line splitter',
+             text='Per-line contracts: directive == API call, literal == its value, prefix/operand order kept, tokens and lines independent of blanks/comments/CR LF; whole-file equality by composition over lines.',
+             note='unit contracts + composition argument, not an end-to-end parse(print(P)) query (does not finish in CBMC); float literal values are libc strtod.', ref='DESIGN.md#c15'),
 }
 
 NOT_APPLICABLE = {
